@@ -360,6 +360,25 @@ func (g *evGen) directed() []genEvent {
 		for _, d := range g.dict {
 			mk(fi, quote(d), "obj "+pathName(f)+"=str-dict")
 		}
+		// every truncation of every dictionary line (a log line cut off at any
+		// byte: inside the pid#tid token, right behind the connection id, inside
+		// a quoted value ...), every seventh one also with a trailing newline
+		budget := 2500
+		for _, d := range g.dict {
+			if len(d) < 24 || len(d) > 400 {
+				continue
+			}
+			for cut := 1; cut < len(d) && budget > 0; cut++ {
+				if cut > 120 && cut%5 != 0 { // every cut in the head of a line (where the formats keep their structure), every fifth one further on
+					continue
+				}
+				budget--
+				mk(fi, quote(d[:cut]), "obj "+pathName(f)+"=str-dict-truncated")
+				if cut%7 == 0 {
+					mk(fi, quote(d[:cut]+"\n"), "obj "+pathName(f)+"=str-dict-truncated")
+				}
+			}
+		}
 		// the field twice (duplicate keys), and the dotted path as one literal key
 		if len(f) == 1 {
 			o := g.base().String()
